@@ -19,8 +19,8 @@ import (
 // (its goroutine, lock, stop channel and frame sleep are under the vrt scheduler) ----
 
 type cockpitCase struct {
-	Tasks   int      `json:"tasks"`
-	Shapes  []string `json:"shapes"` // per task: full (header, write, footer), nostart (footer only: skipped task), errored
+	Tasks  int      `json:"tasks"`
+	Shapes []string `json:"shapes"` // per task: full (header, write, footer), nostart (footer only: skipped task), errored
 }
 
 func cockpitBody(c *cockpitCase) func() {
